@@ -148,6 +148,21 @@ CLAIMS = {
         "non-clock-multiple durations; waveform samples trusted (C16).",
         "DESIGN.md §3 C01",
     ),
+    "C16": (
+        "exploration",
+        "exhaustive grid (full Cartesian products) over waveform classes x durations x parameter values with oracles "
+        "written from the class docstrings",
+        "842 (quick) / ~1100 (thorough) cases, each running 10-200 assertions: every waveform class x durations "
+        "{1,2,3,4,5,10,11,100,101} x parameters {-2,-1e-3,0,1e-3,1,20} (all pairs for ramps), interpolated waveforms with 2-4 "
+        "points, explicit times incl. near-coincident ones and both interpolators, composite and custom waveforms: sample "
+        "count and finiteness, documented values, window area / sign / symmetry, change_duration to two other durations, "
+        "scaling by {-2,-1,0.5,1,3}, division incl. by zero, negation, equality vs sample-wise closeness, every index and slice "
+        "for durations <= 5; from_max_val for area x max_val x beta of both signs (never exceeds, exact area, one ns shorter "
+        "would exceed for windows > 16 ns); pulses with phases {-7,-pi,-1e-12,0,1,2pi,7,100}; invalid pulses refused; "
+        "ArbitraryPhase reproduces 6 phase-waveform kinds x 6 durations at every sample through phase_modulation.",
+        "Grid values only; interpolated waveforms whose points coincide after rounding are a don't-care class.",
+        "DESIGN.md §3 C16",
+    ),
 }
 
 PENDING_REASON = "check not built yet in this round (design in DESIGN.md §3); nothing is claimed for it"
